@@ -580,6 +580,12 @@ class Engine:
         val = None
         if re.match(r"^[\w:]+$", name):
             cands = self.idx.find(name)
+            if len(cands) != 1 and "::" in name:
+                # associated constant `Type::NAME`: the body lives under `<impl at ..>::NAME`
+                last = name.split("::")[-1]
+                c2 = [p for p in self.idx.files if p.endswith("::" + last) and "<impl at" in p]
+                if len(c2) == 1:
+                    cands = c2
             if len(cands) == 1:
                 b = self.idx.body(cands[0])
                 if b.nargs == 0 and len(b.blocks) <= 12:
@@ -1064,6 +1070,13 @@ class Engine:
         # --- operations that can panic on text: slicing, truncate (char boundaries), unwrap of a symbolic Option/Result ---
         if re.search(r"(String|str)::len$", c) and len(args) == 1:
             return Scalar(self.len_of(args[0]))
+        if re.search(r"(^|::)Vec::len$|slice::<impl \[T\]>::len$|\[T\]>::len$", c) and len(args) == 1:
+            res = Scalar(self.len_of(args[0]))      # len() of an unmodified vector is one value, however often it is read
+            ev = Event("len", c, args, res, site, rargs=self.snapshot(args))
+            self.events.append(ev)
+            if self.event_hook is not None:
+                self.event_hook(self, ev)
+            return res
         if re.search(r"str::is_char_boundary$|String::is_char_boundary$", c) and len(args) == 2:
             return Scalar(self.boundary(args[0], self.to_z3(args[1], "usize")))
         if re.search(r"(str|String)::floor_char_boundary$", c) and len(args) == 2:
